@@ -131,6 +131,72 @@ static std::string handle(const std::string& cmd, const std::string& args) {
     for (const FastaSeq& f : r) out += " " + hv::hex_encode(f.header) + " " + hv::hex_encode(f.seq);
     return out;
   }
+  if (cmd == "cifcount" || cmd == "cifval") {
+    // structure-aware corruption of ONE value of a parsed CIF file, then the conversions of the property
+    // cifcount <path> -> number of columns (a pair counts as a one-row column)
+    // cifval <kind> <path> <column> <row> <value-index>
+    const std::string& path = w.at(cmd == "cifcount" ? 0 : 1);
+    cif::Document d = cif::read_file(path);
+    std::vector<std::pair<cif::Item*, int>> cols;     // item, column within a loop (-1: pair)
+    for (cif::Block& b : d.blocks)
+      for (cif::Item& it : b.items) {
+        if (it.type == cif::ItemType::Pair) cols.emplace_back(&it, -1);
+        else if (it.type == cif::ItemType::Loop)
+          for (int c = 0; c < (int) it.loop.tags.size(); ++c) cols.emplace_back(&it, c);
+      }
+    if (cmd == "cifcount") {   // one character per column: 'i' when its first value reads as an integer
+      std::string flags;
+      for (auto& pr : cols) {
+        const std::string& v0 = pr.second < 0 ? pr.first->pair[1]
+                                : (pr.first->loop.values.empty() ? std::string() : pr.first->loop.values[pr.second]);
+        bool isint = !v0.empty() && v0.find_first_not_of("+-0123456789") == std::string::npos;
+        flags += isint ? 'i' : 's';
+      }
+      return std::to_string(cols.size()) + " " + flags;
+    }
+    static const char* const vals[] = {"?", ".", "0", "-1", "1", "2", "2147483647", "-2147483648", "99999999999999999999",
+      "4294967296", "1e308", "-1e-320", "abc", "'a b'", "''", "0.5", "-0.0", ";text\n;", "A", "1555", "1_555", "x,y,z", "1-2",
+      "(1-3)(4,5)", "(X0)(1-60)", "999", "-999", "1.5(3)", "nan", "inf", "P 1", "H", "yes", "n", "1,2,,3", "-", "+", "1e", "0x10",
+      "2000-13-45", "?.", "\"q\"", "1 2"};
+    const int nvals = sizeof(vals) / sizeof(vals[0]);
+    const std::string& kind = w.at(0);
+    auto& pr = cols.at((size_t) to_ll(w.at(2)) % cols.size());
+    std::string val = vals[to_ll(w.at(4)) % nvals];
+    if (pr.second < 0) {
+      pr.first->pair[1] = val;
+    } else {
+      cif::Loop& loop = pr.first->loop;
+      size_t nrows = loop.length();
+      if (nrows == 0) return "OK";
+      size_t row = (size_t) to_ll(w.at(3)) % nrows;
+      loop.values[row * loop.width() + pr.second] = val;
+      if (to_ll(w.at(3)) % 7 == 3)        // sometimes the whole column
+        for (size_t r = 0; r < nrows; ++r) loop.values[r * loop.width() + pr.second] = val;
+    }
+    alarm(20);
+    std::string r = "OK";
+    try {
+      if (kind == "refln") {
+        std::vector<ReflnBlock> rbs = as_refln_blocks(std::move(d.blocks));
+        Logger logger; logger.threshold = 0;
+        for (ReflnBlock& rb : rbs)
+          if (rb.refln_loop || rb.diffrn_refln_loop) {
+            CifToMtz c2m;
+            try { c2m.convert_block_to_mtz(rb, logger); } catch (std::exception&) {}
+          }
+      } else {
+        for (const cif::Block& b : d.blocks) {
+          try {
+            if (kind == "st_cif") make_structure_from_block(b);
+            else if (kind == "small") make_small_structure_from_block(b);
+            else make_chemcomp_from_block(b);
+          } catch (std::exception&) { r = "EXC"; }
+        }
+      }
+    } catch (std::exception&) { r = "EXC"; }
+    alarm(0);
+    return r;
+  }
   if (cmd == "gzfile") {       // gzfile <cif|json|st|pdb> <path> <mode> <seed>: corrupted gzip container through the *_gz readers
     std::ifstream f(w.at(1), std::ios::binary);
     std::string plain((std::istreambuf_iterator<char>(f)), std::istreambuf_iterator<char>());
